@@ -5,7 +5,8 @@
    more caller), the receiver, closers, timers, the server; every placement of failures.  "Within a
    bounded time" is not expressible without a clock: progress is stated as absence of stuck states. *)
 From GocqlV Require Import Lib.Base C01.Model C01.Spec C01.Proofs1 C01.Proofs2 C01.Proofs2c C01.Proofs3
-  C01.Proofs4 C01.Proofs6 C01.Proofs7 C01.Proofs8 C01.Props.
+  C01.Proofs4 C01.Proofs6 C01.Proofs7 C01.Proofs8 C01.Props C06.Compose.
+From GocqlV Require C07.Model C07.Spec.
 
 (* An outcome, once reached, is final, and a caller identifier is never started twice: every request ends
    at most once, with one of the outcome classes of type [outcome] (no hypothesis on the environment). *)
@@ -82,6 +83,30 @@ Proof.
   apply leak_only_by_silence; auto. intros [D|[D|D]]; [congruence | congruence | exact (Hrd D)].
 Qed.
 Print Assumptions C06_leak_only_by_silence.
+
+(* The abstract Write of this model composed with C07's writer models: the three outcomes WriteEnd
+   distinguishes are exactly exec's case distinction on what writeContext returned, and each guarantees
+   about the wire what the connection model assumes - for the direct writer ... *)
+Theorem C06_write_abstraction_direct : forall has_to ls s t r,
+  C07.Model.drun has_to C07.Model.d_init ls = Some s -> C07.Model.result_of (C07.Model.d_thr s) t = Some r ->
+  (classify r = WFail <-> C07.Model.must_close r = true)
+  /\ (classify r = WCtx0 -> C07.Model.bytes_of t (C07.Model.d_wire s) = [])
+  /\ (classify r = WOk -> C07.Model.d_broken s = false ->
+      fst r = length (C07.Model.frame_of (C07.Model.d_thr s) t)
+      /\ C07.Spec.frame_present (C07.Model.frame_of (C07.Model.d_thr s)) t (C07.Model.d_wire s)).
+Proof. exact direct_compose. Qed.
+Print Assumptions C06_write_abstraction_direct.
+
+(* ... and for the write coalescer (the connection must honour io.Writer: c_broken = false). *)
+Theorem C06_write_abstraction_coalescer : forall has_to ls s t r,
+  C07.Model.crun has_to C07.Model.c_init ls = Some s -> C07.Model.result_of (C07.Model.c_thr s) t = Some r ->
+  (classify r = WFail <-> C07.Model.must_close r = true)
+  /\ (classify r = WCtx0 -> C07.Model.c_broken s = false -> C07.Model.bytes_of t (C07.Model.c_wire s) = [])
+  /\ (classify r = WOk -> C07.Model.c_broken s = false ->
+      fst r = length (C07.Model.frame_of (C07.Model.c_thr s) t)
+      /\ C07.Spec.frame_present (C07.Model.frame_of (C07.Model.c_thr s)) t (C07.Model.c_wire s)).
+Proof. exact coal_compose. Qed.
+Print Assumptions C06_write_abstraction_coalescer.
 
 (* ---- non-vacuity ------------------------------------------------------------------------------------- *)
 
